@@ -60,6 +60,9 @@ class Device:
             if self.swallow > 0:
                 self.swallow -= 1
                 continue
+            pw = getattr(self, "pause", None)
+            if pw and pw[0] * 1_000_000 <= sched.S.now < pw[1] * 1_000_000:
+                continue                  # the receiver is busy for a while: commands that arrive in this window get no reply at all
             replies = self.answer(line)
             if self.cut_reply and line == self.cut_reply["cmd"]:
                 self.cut_seen += 1
